@@ -208,53 +208,75 @@ def generated_clones(i, prop="C12"):
     """a generated specification (contracts/randspec.py) declared ONCE as a template and instantiated twice: every clone
     owes the NLP exactly what the specification's own oracle demands (dynamics, constraints where declared incl. the
     include_first / include_last qualifiers, objective, horizon symbols of ITS stage), and keeps ITS OWN parameter values"""
-    from . import randspec
-    kw = randspec.make(i)
+    kw = gen_kw(i, prop)
     return clones_of(kw, "%s/R%03d-%s-two-clones" % (prop, i, kw["method"]))
 
 
+def gen_kw(i, prop):
+    """the i-th generated specification; under C10 / C12 with its generated guesses, all given to the TEMPLATE before cloning"""
+    from . import randspec
+    kw = randspec.make(i)
+    if prop in ("C10", "C12"):
+        ini, _ = randspec.make_initial(i, kw)
+        kw = dict(kw, initial=ini, initial_after=0)
+    return kw
+
+
 def clones_of(kw, inst):
-    from rockit import Ocp
+    from . import bounded
     c = ctx()
-    tmpl = Spec(**kw)
-    tmpl.build(template=True)
-    template = tmpl.ocp
-    master = Ocp()
-    clones_ = [master.stage(template), master.stage(template)]
-    pvs = []
-    for j, cl in enumerate(clones_):
-        pv = {}
-        for kind in ("", "control", "control+"):
-            for q, psym in enumerate(tmpl.sym[("p", kind)]):
-                cols = {"": 1, "control": tmpl.N, "control+": tmpl.N + 1}[kind]
-                val = unknown("clone%d_pval_%s%d" % (j, kind.replace("+", "plus"), q), psym.shape[0], psym.shape[1] * cols)
-                cl.set_value(psym, val)
-                pv[(kind, q)] = val
-        for key in ("T", "t0"):
-            if "p_" + key in tmpl.sym:
-                val = unknown("clone%d_pval_%s" % (j, key), positive=(key == "T"))
-                cl.set_value(tmpl.sym["p_" + key], val)
-                pv[key] = val
-        pvs.append(pv)
+    master, tmpl, bs = spec_mod.build_clones(kw)
     master.solver("ipopt")
     master._transcribed
     aug = master._augmented
-    parts = [(tmpl.bound_to(aug._stages[j], pvals=pvs[j]), aug._stages[j]._method) for j in range(2)]
+    parts = []
+    for j, b in enumerate(bs):
+        b.ocp = aug._stages[j]
+        parts.append((b, aug._stages[j]._method))
     union_check(inst, master, parts, lambda parts: [], ca.MX(0.0), grids=True)
     opti = aug._method.opti
     for j, (sp, meth) in enumerate(parts):
-        for kind, lst in (("", meth.P), ("control", meth.P_control), ("control+", meth.P_control_plus)):
-            for q, P in enumerate(lst):
-                if (kind, q) not in sp.pvals:
-                    continue
-                members = [P] if kind == "" else list(P)
-                want = ca.DM(sp.pvals[(kind, q)])
-                ncol = ca.MX(members[0]).shape[1]
-                for k_, sym in enumerate(members):
-                    sym = ca.MX(sym)
-                    got = ca.DM._raw(sym.rows, sym.cols, [opti._pval.get(str(x)) for x in sym.e])
-                    nlp.prove_equal("%s|stage:Stage.clone:ensures:clone-%d-keeps-its-own-value[%s%d,member %d]" % (inst, j, kind or "global", q, k_), got,
-                                    want if kind == "" else want[:, k_ * ncol:(k_ + 1) * ncol])
+        sp.opti = opti
+        bounded.check_init(inst, sp, meth, opti, label="clone %d/" % j)     # the template's guesses (incl. T / t0) reach every clone
+        clone_pvals(inst, j, sp, meth, opti)
+
+
+def divergent_clones(kw, inst):
+    """two stages created from one template; AFTER cloning, the second one is given dynamics of its own (with derivative scales
+    of its own), one more constraint, one more objective term, one more guess and parameter values of its own
+    (contracts/spec.py:build_clones).  The first clone owes exactly what the template's specification demands, the second
+    what the amended specification demands: nothing declared on a clone may reach its sibling (or the template)."""
+    from . import bounded
+    c = ctx()
+    master, tmpl, bs = spec_mod.build_clones(kw, divergent=True)
+    master.solver("ipopt")
+    master._transcribed
+    aug = master._augmented
+    parts = []
+    for j, b in enumerate(bs):
+        b.ocp = aug._stages[j]
+        parts.append((b, aug._stages[j]._method))
+    union_check(inst, master, parts, lambda parts: [], ca.MX(0.0), grids=True)
+    opti = aug._method.opti
+    for j, (sp, meth) in enumerate(parts):
+        sp.opti = opti
+        bounded.check_init(inst, sp, meth, opti, label="clone %d/" % j)
+        clone_pvals(inst, j, sp, meth, opti)
+
+
+def clone_pvals(inst, j, sp, meth, opti):
+    for kind, lst in (("", meth.P), ("control", meth.P_control), ("control+", meth.P_control_plus)):
+        for q, P in enumerate(lst):
+            if (kind, q) not in sp.pvals:
+                continue
+            members = [P] if kind == "" else list(P)
+            want = ca.DM(sp.pvals[(kind, q)])
+            ncol = ca.MX(members[0]).shape[1]
+            for k_, sym in enumerate(members):
+                sym = ca.MX(sym)
+                got = ca.DM._raw(sym.rows, sym.cols, [opti._pval.get(str(x)) for x in sym.e])
+                nlp.prove_equal("%s|stage:Stage.clone:ensures:clone-%d-keeps-its-own-value[%s%d,member %d]" % (inst, j, kind or "global", q, k_), got,
+                                want if kind == "" else want[:, k_ * ncol:(k_ + 1) * ncol])
 
 
 def generated_two_stages(i, prop="C12"):
@@ -345,7 +367,20 @@ def generated_clone_tasks(tier, prop, select=None):
         if select and not select(kw):
             continue
         inst = "%s/R%03d-%s-two-clones" % (prop, i, kw["method"])
-        out.append(Task(inst, guarded(lambda i=i: generated_clones(i, prop), inst), kind="bounded", bound=dict(generated=i, clones=2), replay=dict(harness="clones_of_probe", generated=i)))
+        out.append(Task(inst, guarded(lambda i=i: generated_clones(i, prop), inst), kind="bounded", bound=dict(generated=i, clones=2), replay=dict(harness="clones_of_probe", generated=i, prop=prop)))
+    return out
+
+
+def generated_divergent_tasks(tier, prop, select=None, quick=16, thorough=60):
+    from . import randspec
+    out = []
+    for i in range(thorough if tier == "thorough" else quick):
+        kw = randspec.make(i)
+        if select and not select(kw):
+            continue
+        inst = "%s/R%03d-%s-divergent-clones" % (prop, i, kw["method"])
+        out.append(Task(inst, guarded(lambda i=i, inst=inst: divergent_clones(gen_kw(i, prop), inst), inst), kind="bounded", bound=dict(generated=i, clones=2, second_clone="own dynamics, derivative scales, constraint, objective term, guess, parameter values"),
+                        replay=dict(harness="clones_of_probe", generated=i, divergent=True, prop=prop)))
     return out
 
 
@@ -370,6 +405,7 @@ def tasks(tier):
             out.append(Task(inst, guarded(lambda kw=kw, inst=inst: clones_of(dict(kw), inst), inst), kind="bounded", bound=dict(method=m, T=Tk[0], t0=t0k[0], clones=2),
                             replay=dict(harness="clones_of_probe", method=m, T=list(Tk), t0=list(t0k))))
     out += generated_clone_tasks(tier, "C12")
+    out += generated_divergent_tasks(tier, "C12")
     for i in range(60 if tier == "thorough" else 20):
         inst = "C12/R%03d-two-generated-stages" % i
         out.append(Task(inst, guarded(lambda i=i: generated_two_stages(i), inst), kind="bounded", bound=dict(generated=[2 * i, 2 * i + 1]), replay=dict(harness="two_stage_probe", index=i)))
